@@ -23,12 +23,35 @@ def c07_1(c: Ctx) -> None:
         if w.unit.key not in owners:
             c.fail(w.unit, f'writes event_path: {U(w.node)[:80]}', f'event_path is modified outside dispatch (in {w.unit.qualname})', node=w.node)
             continue
+        if w.how == 'pop' and isinstance(w.node, ast.Call) and not w.node.args and w.target == f'{ev}.event_path':
+            # taking this bus's own entry back when the dispatch ends up rejecting the event: the last entry, it is this bus's name, the call that removes it added it
+            # itself, and the dispatch does not return normally afterwards
+            gq = c.cfg(w.unit)
+            last_atom = f'{ev}.event_path[-1] == {self_}.name'
+            fq = Facts(lambda a: a in (last_atom, f'{self_}.name == {ev}.event_path[-1]') or a.isidentifier(), cg=c.cg, unit=w.unit)
+            okp = True
+            from sa.cfg import search as _s
+
+            for n in gq.nodes_of(q.stmt_of(w.node)):
+                if q.guard_search(gq, n, last_atom, fq) is not None:
+                    okp = False
+                if _s([(n, ())], is_target=lambda x, dd: x.kind == 'exit', edge_ok=lambda x, e, dd: None if e.is_exc else dd) is not None:
+                    okp = False  # the dispatch can still return normally after taking the entry back
+            flags = [a.test.values if isinstance(a.test, ast.BoolOp) else [a.test] for a in q.ancestors_of(w.node) if isinstance(a, ast.If)]
+            flag_names = {x.id for conj in flags for x in conj if isinstance(x, ast.Name)}
+            added_here = any(isinstance(n_, ast.Assign) and isinstance(n_.targets[0], ast.Name) and n_.targets[0].id in flag_names and U(n_.value) == f'{self_}.name not in {ev}.event_path' for n_ in own_nodes(w.unit.node))
+            if okp and added_here:
+                c.ok(where(w.unit, w.node), 'a rejected dispatch takes back the path entry it added itself (last entry, this bus, then raises)')
+            else:
+                c.fail(w.unit, f'event_path entry removed: {U(w.node)[:60]}', 'a path entry is removed although the event was (or may have been) accepted by this bus: the bus has results on the event but is missing from '
+                       'event_path, and loop prevention no longer protects it', node=w.node)
+            continue
         if not (w.how == 'append' and isinstance(w.node, ast.Call) and len(w.node.args) == 1 and U(w.node.args[0]) == f'{self_}.name' and w.target == f'{ev}.event_path'):
             c.fail(w.unit, f'event_path write is not append(self.name): {U(w.node)[:80]}', 'event_path is rewritten / appended with something other than this bus\'s name', node=w.node)
             continue
         g = c.cfg(w.unit)
         atom = f'{self_}.name in {ev}.event_path'
-        facts = Facts(lambda a: a == atom, cg=c.cg, unit=w.unit)
+        facts = Facts(lambda a: a == atom or a.isidentifier(), cg=c.cg, unit=w.unit)  # (plain locals: the test may be computed into a flag first)
         st = q.stmt_of(w.node)
         for n in g.nodes_of(st):
             p = q.guard_search(g, n, f'{self_}.name not in {ev}.event_path', facts)
@@ -40,7 +63,7 @@ def c07_1(c: Ctx) -> None:
     g = c.cfg(d)
     apps = {id(q.stmt_of(w.node)) for w in ws if w.unit.key == d.key}
     atom = f'{self_}.name in {ev}.event_path'
-    facts = Facts(lambda a: a == atom, cg=c.cg, unit=d)
+    facts = Facts(lambda a: a == atom or a.isidentifier(), cg=c.cg, unit=d)
     puts = [n for n in g.live_nodes() if q.node_calls(n, 'put_nowait')]
     for pn in puts:
         from sa.cfg import search
